@@ -138,6 +138,26 @@ def run(tier, seed):
             if n % 500 == 5:
                 run.sample({"xml": r.get("xml"), "expected_paint": [o[3] for o in case["out"]]})
             n += 1
+        # generated paint documents (harness/docgen.py): random nesting, declarations and style sheets; cascade evaluated by TLC
+        import json
+        import os
+        import random
+        from . import docgen
+        rng = random.Random(seed * 4001 + 14)
+        ndocs = 1200 if tier == "quick" else 30000
+        docs = [docgen.gen_paint_doc(rng) for _ in range(ndocs)]
+        gen = []
+        for part in range(0, ndocs, 5000):
+            df = os.path.join(work, "docs_%d.json" % part)
+            with open(df, "w") as f:
+                json.dump(docs[part:part + 5000], f)
+            gres = engine.run_tlc(work, "MC_C14", constants={}, init="InitGen", env={"DOCS_FILE": df}, timeout=7200)
+            run.add_tlc(gres, "DocPaint cascade evaluated by TLC on %d generated documents" % len(docs[part:part + 5000]))
+            for i, st in enumerate(engine.read_dump(gres["dump"])):
+                gen.append({"kind": "generated", "doc": st["doc"], "sheet": st["sheet"], "callerColor": st["callerColor"], "out": st["out"], "n": 50000 + part + i, "seed": seed})
+        for case, r in engine.replay("harness.c14", gen, chunk=100):
+            run.record(case, r, key=r.get("xml", str(case["doc"])) + case["callerColor"])
+            bykind["generated"] = bykind.get("generated", 0) + 1
         run.extra["cases_by_kind"] = bykind
         run.extra["exhaustive"] = True
     finally:
